@@ -277,7 +277,7 @@ class Ctx:
         t = time.time()
         ov = {}
         ovd = os.path.join(HARNESS, "_overlay")
-        for name in sorted(os.listdir(ovd)):
+        for name in (sorted(os.listdir(ovd)) if os.path.isdir(ovd) else []):
             if not name.endswith(".go"):
                 continue
             # file name <pkgdir>__<name>.go ; pkgdir "root" = /repo itself
